@@ -341,3 +341,70 @@ Proof. unfold segwit_new_bech32_p. pose proof (segwit_front_spec false s) as F. 
   - unfold segwit_front in Ef. unfold known_F1. destruct (unchecked_new_p s) as [[h' d']|e'|w]; [|reflexivity|reflexivity]. destruct d' as [|c r]; [|reflexivity]. cbn in Ef. discriminate.
   - destruct F as [_ ->]. reflexivity. Qed.
 Lemma segwit_new_bech32_refuted : segwit_new_bech32_p [x61; x31] = HPanic WIndex /\ known_F1 [x61; x31] = true. Proof. split; reflexivity. Qed.
+
+(* ------------------------------------------------------------------------------------------------ taproot / schnorr slice parsers *)
+Lemma NODE_32 : NODE = 32%nat. Proof. reflexivity. Qed.
+Lemma BASE_33 : BASE = 33%nat. Proof. reflexivity. Qed.
+Lemma chunks_p_total : forall fuel sl w, (length sl <= fuel)%nat -> chunks_p fuel sl <> Panic w.
+Proof. induction fuel as [|f IH]; intros sl w L; cbn [chunks_p].
+  - destruct sl; [discriminate|cbn in L; lia].
+  - rewrite NODE_32. destruct (Nat.ltb_spec (length sl) 32) as [|G]; [discriminate|].
+    rewrite firstn_length. replace (Nat.min 32 (length sl)) with 32%nat by lia. cbn [Nat.eqb expect bind].
+    destruct (chunks_p f (skipn 32 sl)) eqn:E; cbn [bind]; try discriminate. exfalso. apply (IH (skipn 32 sl) w0); [rewrite skipn_length; lia|exact E]. Qed.
+Lemma branch_from_slice_p_total sl w : branch_from_slice_p sl <> Panic w.
+Proof. unfold branch_from_slice_p. destruct (negb _); [discriminate|]. destruct (_ <? _); [discriminate|]. apply chunks_p_total. lia. Qed.
+Lemma cb_from_slice_p_total xv sl w : cb_from_slice_p xv sl <> Panic w.
+Proof. unfold cb_from_slice_p. unfold Totality.lenN. change TAPROOT_CONTROL_BASE_SIZE with 33. rewrite BASE_33.
+  destruct (N.ltb_spec (N.of_nat (length sl)) 33) as [|G]; cbn [bind]; [discriminate|].
+  rewrite usub_ok by lia. cbn [bind]. destruct (negb _); [discriminate|].
+  rewrite (idx_ok sl 0 x00) by lia. cbn [bind].
+  assert (P : N.land (b2n (nth 0 sl x00)) 1 < 2). { change 1 with (N.ones 1). rewrite N.land_ones. apply N.mod_lt. discriminate. }
+  set (p := N.land (b2n (nth 0 sl x00)) 1) in *.
+  assert (T : forall par, (do b0' <- Val (nth 0 sl x00);
+      match leafver_from_u8 (N.land (b2n b0') TAPROOT_LEAF_MASK) with
+      | Taproot.Err e => Fail (terr_name e)
+      | Taproot.Ok ver => do key <- slice sl 1 33; if negb (xv key) then Fail (terr_name InvalidInternalKey) else
+          do rest <- slice_from sl 33; do brn <- branch_from_slice_p rest;
+          Val {| cb_ver := ver; cb_parity := par; cb_key := key; cb_branch := brn |} end) <> Panic w).
+  { intros par. cbn [bind]. destruct (leafver_from_u8 _); [|discriminate]. rewrite slice_ok by lia. cbn [bind]. destruct (negb _); [discriminate|].
+    rewrite slice_from_ok by lia. cbn [bind]. destruct (branch_from_slice_p _) eqn:B; cbn [bind]; try discriminate. intros H; inversion H; subst. exact (branch_from_slice_p_total _ _ B). }
+  destruct (N.eqb_spec p 0) as [E0|N0]; [|destruct (N.eqb_spec p 1) as [E1|N1]; [|lia]]; cbn [orb expect bind]; apply T. Qed.
+Lemma schnorr_pset_total sig_ok bs w : schnorr_pset sig_ok bs <> Panic w.
+Proof. unfold schnorr_pset. destruct (Nat.eqb_spec (length bs) 65) as [L|].
+  - rewrite (idx_ok bs 64 x00) by lia. cbn [bind]. destruct (sighash_from_u8 _); [|discriminate]. rewrite slice_to_ok by lia. cbn [bind]. destruct (sig_ok _); discriminate.
+  - destruct (Nat.eqb_spec (length bs) 64) as [L|]; [|discriminate]. rewrite slice_to_ok by lia. cbn [bind]. destruct (sig_ok _); discriminate. Qed.
+Lemma schnorr_from_slice_total sig_ok sl w : schnorr_from_slice sig_ok sl <> Panic w.
+Proof. unfold schnorr_from_slice. destruct (Nat.eqb _ 64); [destruct (_ && _); discriminate|]. destruct (rev sl); [discriminate|].
+  destruct (sighash_from_u8 _); [|discriminate]. destruct (_ && _); discriminate. Qed.
+
+(* ------------------------------------------------------------------------------------------------ PSET value decoders *)
+Lemma scriptver_p_total bs w : scriptver_p bs <> Panic w.
+Proof. unfold scriptver_p. destruct bs as [|b r]; [discriminate|]. cbn [Script.is_empty]. set (s := b :: r). assert (L : (1 <= length s)%nat) by (cbn; lia).
+  rewrite usub_ok by lia. cbn [bind]. rewrite slice_to_ok by lia. cbn [bind]. rewrite (idx_ok s (length s - 1) x00) by lia. cbn [bind].
+  destruct (leafver_from_u8 _); discriminate. Qed.
+Lemma xonlyleaf_p_total xv bs w : xonlyleaf_p xv bs <> Panic w.
+Proof. unfold xonlyleaf_p. destruct (Nat.ltb_spec (length bs) 32); [discriminate|]. rewrite slice_to_ok by lia. cbn [bind]. destruct (negb _); [discriminate|].
+  rewrite slice_from_ok by lia. cbn [bind]. destruct (Nat.eqb _ 32); discriminate. Qed.
+Lemma le_dec_len k : forall bs v r, le_dec k bs = Some (v, r) -> length bs = (k + length r)%nat.
+Proof. intros bs v r H. apply le_dec_exact in H as [-> _]. rewrite app_length, le_enc_length. reflexivity. Qed.
+Lemma u32s_total : forall fuel rest w, (length rest < fuel)%nat -> u32s fuel rest <> Panic w.
+Proof. induction fuel as [|f IH]; intros rest w L; [lia|]. cbn [u32s]. destruct rest as [|b r]; [discriminate|].
+  destruct (le_dec 4 (b :: r)) as [[v r']|] eqn:D; [|discriminate]. apply le_dec_len in D.
+  destruct (u32s f r') eqn:E; cbn [bind]; try discriminate. exfalso. apply (IH r' w0); [lia|exact E]. Qed.
+Lemma keysource_p_total bs w : keysource_p bs <> Panic w.
+Proof. unfold keysource_p. destruct (_ <? 4)%nat; [discriminate|]. destruct (u32s _ _) eqn:E; cbn [bind]; try discriminate.
+  exfalso. apply (u32s_total _ _ w0) in E; [exact E|]. rewrite skipn_length. lia. Qed.
+Lemma leafks_p_total maxvec bs w : leafks_p maxvec bs <> Panic w.
+Proof. unfold leafks_p. destruct (dec _ bs) as [[hs rest]|]; [|discriminate]. rewrite slice_from_ok by lia. cbn [bind].
+  destruct (keysource_p _) eqn:E; cbn [bind]; try discriminate. exfalso. exact (keysource_p_total _ _ E). Qed.
+Lemma varbytes_consumes maxvec bs v r : dec (c_varbytes maxvec) bs = Some (v, r) -> (length r < length bs)%nat.
+Proof. intros D. pose proof (al_min (alaw_varbytes maxvec) bs v r D) as M. unfold len in M. lia. Qed.
+Lemma taptree_loop_total Hleaf Hbranch : forall fuel maxvec bs b w, (length bs < fuel)%nat -> taptree_loop Hleaf Hbranch fuel maxvec bs b <> Panic w.
+Proof. induction fuel as [|f IH]; intros maxvec bs b w L; [lia|]. cbn [taptree_loop]. destruct bs as [|depth r1]; [discriminate|]. destruct r1 as [|version r2]; [discriminate|].
+  destruct (dec (c_varbytes maxvec) r2) as [[script r3]|] eqn:D; [|discriminate]. pose proof (varbytes_consumes _ _ _ _ D) as C.
+  destruct (Nat.ltb_spec 0 (length r2 - length r3)); [|lia]. rewrite usub_ok by lia. cbn [bind].
+  destruct (leafver_from_u8 _); [|discriminate]. destruct (Taproot.insert _ _ _ _); [|discriminate]. apply IH. cbn [length] in L. lia. Qed.
+Lemma taptree_p_total Hleaf Hbranch maxvec bs w : taptree_p Hleaf Hbranch maxvec bs <> Panic w.
+Proof. unfold taptree_p. destruct (taptree_loop _ _ _ _ _ _) eqn:E; cbn [bind]; try discriminate.
+  - destruct (Taproot.is_complete _); discriminate.
+  - exfalso. apply (taptree_loop_total _ _ _ _ _ _ w0) in E; [exact E|lia]. Qed.
